@@ -495,6 +495,64 @@ fn gen_vsign(ctx: &mut Ctx) {
             }
         }
     }
+    // custom geometries (configuration blocks of no known type): tall multi-chunk pages, non-zero reserved bytes, the
+    // largest sizes a block can express -- each followed by one complete page of exactly that size
+    {
+        let mut geos: Vec<(Vec<u8>, u32, u32)> = vec![];
+        for (w, h) in [(12u32, 24u32), (20, 17), (30, 60), (4, 24), (7, 33), (255, 255), (1, 255), (255, 1)] {
+            geos.push((vec![8, 0, 0, 0, 0, h as u8, 0, w as u8, 0, 0, 0, 0, 0, 0, 0, 0], w, h));
+            // Horizon blocks whose reserved bytes (2, 3, 4, 6, 8..) are not zero: width is byte 7, height byte 5, only
+            geos.push((vec![8, 0, 9, 9, 9, h as u8, (w % 7 + 1) as u8, w as u8, 3, 3, 3, 3, 1, 1, 1, 1], w, h));
+        }
+        for (h, ws) in [(24u32, [6u8, 6, 0, 0]), (16, [255, 255, 255, 255]), (255, [255, 255, 255, 255]), (249, [255, 255, 255, 255]), (17, [10, 0, 0, 10]), (1, [0, 0, 0, 1])] {
+            let w: u32 = ws.iter().map(|x| *x as u32).sum();
+            geos.push((vec![4, 0, 0, 0, h as u8, ws[0], ws[1], ws[2], ws[3], 8, 0, 0, 0, 0, 0, 0], w, h));
+        }
+        for (gi, (block, w, h)) in geos.iter().enumerate() {
+            if !thorough && *w * *h > 70000 && gi % 2 == 1 {
+                continue;
+            }
+            let total = total_bytes(*w as u64, *h as u64) as usize;
+            let mut page: Vec<u8> = (0..total).map(|x| ((x * 11 + gi) & 255) as u8).collect();
+            page[0] = 3;
+            let mut msgs = vec!["RO.3.RCF".to_string(), format!("SD.0.{}", hex_of_bytes(block)), "DC.1".to_string(), "QS.3".to_string(), "RO.3.RPX".to_string()];
+            let mut n = 0u32;
+            for (k, c) in page.chunks(16).enumerate() {
+                msgs.push(format!("SD.{}.{}", (k * 16) % 65536, hex_of_bytes(c)));
+                n += 1;
+            }
+            msgs.push(format!("DC.{}", n));
+            msgs.push("QS.3".to_string());
+            let line = format!("VSL 3 M {}", msgs.join(" "));
+            let res = ctx.case(line.clone(), true, "custom-geometry");
+            let stored = res.split(" # ").nth(1).unwrap_or("-");
+            let want = format!("{}.{}.{}", w, h, hex_of_bytes(&page));
+            ctx.monitor(stored == want, "C13-state-machine", &format!("VSL 3 M <configure {}x{} with block {}, one complete page of {} bytes>", w, h, hex_of_bytes(block), total), &format!("stored: {}", &stored[..stored.len().min(60)]));
+        }
+    }
+    // 65 540 configuration blocks in one configuration phase, and 65 540 chunks in one pixel phase (16-bit counters)
+    {
+        let blk = &config_blocks()[0].0;
+        let mut msgs = vec!["RO.3.RCF".to_string()];
+        for _ in 0..65540 {
+            msgs.push(format!("SD.0.{}", blk));
+        }
+        msgs.push("DC.4".to_string());
+        msgs.push("QS.3".to_string());
+        let line = format!("VSL 3 M {}", msgs.join(" "));
+        let res = ctx.case(line, true, "chunk-counter-wrap");
+        ctx.monitor(!res.contains("PANIC"), "C12-no-panic", "VSL 3 M <65540 configuration blocks in ConfigInProgress>", &res);
+        let mut msgs = vec!["RO.3.RCF".to_string(), format!("SD.0.{}", config_blocks()[2].0), "DC.1".to_string(), "RO.3.RPX".to_string()];
+        for i in 0..65540 {
+            // (empty chunks: the model appends to the pending buffer by list concatenation, which is quadratic)
+            msgs.push(if i % 8192 == 5 { "SD.32.07".to_string() } else { "SD.16.-".to_string() });
+        }
+        msgs.push("DC.4".to_string());
+        msgs.push("QS.3".to_string());
+        let line = format!("VSL 3 M {}", msgs.join(" "));
+        let res = ctx.case(line, true, "chunk-counter-wrap");
+        ctx.monitor(!res.contains("PANIC"), "C12-no-panic", "VSL 3 M <65540 chunks in PixelsInProgress>", &res);
+    }
     // more than 65535 bytes buffered since the last offset-0 chunk (large chunks at non-zero offsets, no count message)
     {
         let mut msgs = vec!["RO.3.RCF".to_string(), format!("SD.0.{}", config_blocks()[0].0), "DC.1".to_string(), "RO.3.RPX".to_string(), format!("SD.0.{}", chunk(16, 0))];
@@ -915,10 +973,19 @@ pub fn gen_cts(ctx: &mut Ctx, n: usize, stream: u64) {
         let fail_pattern: Vec<u64> = (0..ops.len()).map(|i| if k % 8 == 0 && i == 0 { 3 } else { rng.below(4) }).collect();
         // up to three deviations from the cooperative script, at random steps
         let nfaults = [0usize, 1, 1, 2, 3][rng.below(5) as usize];
-        let fault_at: Vec<i64> = (0..nfaults).map(|_| rng.below(45) as i64).collect();
+        let mut fault_at: Vec<i64> = (0..nfaults).map(|_| rng.below(45) as i64).collect();
         let fault_letters = ["E".to_string(), "ET".to_string(), "EI".to_string(), "EF".to_string(), "ES".to_string(), "EB".to_string(), "N".to_string(), "N".to_string(),
             format!("RS.{}.PFL", own), format!("RS.{}.CRX", own), format!("AO.{}.SRS", own ^ 1), format!("RS.{}.SHP", own ^ 1), format!("RS.{}.PRX", own ^ 0x0100), format!("GB.{}", own)];
-        let fault: Vec<String> = (0..nfaults).map(|_| rng.pick(&fault_letters).clone()).collect();
+        let mut fault: Vec<String> = (0..nfaults).map(|_| rng.pick(&fault_letters).clone()).collect();
+        if k % 8 == 3 {
+            // two sends on one Sign with a deviation at the LAST query of the first (the flip-style query) and at the
+            // query CONCLUDING the transfer of the second: what the first call saw must not decide the second
+            let n1 = (bytes_of_hex(p1.split('.').nth(2).unwrap()).len() / 16) as i64;
+            let first_len = n1 + 5; // request, chunks, count, query, pixels-complete, query
+            fault_at = vec![first_len - 1, first_len + n1 + 2];
+            let quiet = ["N".to_string(), format!("RS.{}.SHP", own ^ 1), "E".to_string(), format!("AO.{}.RPX", own), format!("GB.{}", own)];
+            fault = vec![rng.pick(&quiet).clone(), rng.pick(&quiet[..4]).clone()];
+        }
         let auto = rng.chance(1, 2);
         let mut r2 = Rng::new(rng.next(), 4242);
         let fp = fail_pattern.clone();
@@ -1305,6 +1372,13 @@ fn gen_c09(ctx: &mut Ctx) {
             pages = (0..n).map(|j| small_page((j % 256) as u8, 8, 8, &mut rng)).collect();
             items = pages.iter().map(|p| bytes_of_hex(p.split('.').nth(2).unwrap())).collect();
         }
+        if k == 14 {
+            // the largest transfer the 16-bit chunk count can announce: exactly 65535 chunks (15 items of 4096 chunks and
+            // one of 4095)
+            pages = (0..15).map(|j| small_page(j as u8, 65532 / 2, 16, &mut rng)).collect();
+            pages.push(small_page(99, 65516 / 2, 16, &mut rng));
+            items = pages.iter().map(|p| bytes_of_hex(p.split('.').nth(2).unwrap())).collect();
+        }
         if k == 2 {
             // one chunk short of the limit, followed by a second item (offset restart after a long item)
             let p = small_page(7, 65516 / 2, 16, &mut rng);
@@ -1585,6 +1659,13 @@ fn gen_c08(ctx: &mut Ctx) {
             format!("RO.7.{}", rng.pick(&["RCF", "SRS"])),
         ];
         let line = format!("CL 3 5 M 7 {} 9 A {} | CFG.7.{} SND.7.{} SHW.7.50", if k % 2 == 0 { "M" } else { "A" }, prior.join(" "), t, pages.join("+"));
-        ctx.case(line, true, "multi-sign");
+        let res = ctx.case(line.clone(), true, "multi-sign");
+        // the target (second of three signs) ends up holding exactly the pages sent, whatever the others are doing
+        let toks: Vec<&str> = res.split(" # ").next().unwrap_or("").split(' ').filter(|s| !s.is_empty()).collect();
+        let hp = hash_page_literals(&pages);
+        let ok = toks.len() == 3
+            && toks.iter().all(|x| x.starts_with("DONE"))
+            && toks[1].split('/').nth(2).map(|o| o.ends_with(&format!(".{}.{}.{}", t, pages.len(), hp))).unwrap_or(false);
+        ctx.monitor(ok, "C08-closed-loop", &line[..line.len().min(500)], &format!("{:?}", toks.iter().map(|x| &x[..x.len().min(60)]).collect::<Vec<_>>()));
     }
 }
